@@ -245,50 +245,29 @@ func ruleUniqueID(c *core.Ctx, objects *types.Var) {
 		c.Undecided(rule, "bus.serviceImpl.Add", token.NoPos, "anchor not found")
 		return
 	}
-	ups, _ := mapWrites(fn, objects)
-	lks := mapLookups(fn, objects)
+	unit := unitOf(c, fn)
 	var ms []core.EdgeMatcher
-	for _, lk := range lks {
-		if lk.CommaOk {
-			ms = append(ms, core.IsFalse(okOf(lk)))
+	var stores []*ssa.MapUpdate
+	for _, f := range unit {
+		for _, lk := range mapLookups(f, objects) {
+			if lk.CommaOk {
+				ms = append(ms, core.IsFalse(okOf(lk)))
+			}
 		}
+		ups, _ := mapWrites(f, objects)
+		stores = append(stores, ups...)
 	}
-	if len(ms) == 0 || len(ups) == 0 {
+	if len(ms) == 0 || len(stores) == 0 {
 		c.Fail(rule, "bus.serviceImpl.Add", fn.Pos(), "Add does not check that the identifier is free before using it")
 		return
 	}
-	// the first store of each critical section that introduces the key
-	first := ups[0]
-	for _, u := range ups {
-		if core.Dominates(u, first) {
-			first = u
+	bad := ""
+	for _, up := range stores {
+		if !guardedUp(c, up.Parent(), up, core.AnyOf(ms...)) {
+			bad = "Add can store an object under an identifier already in use (at " + c.Pos(up.Pos()) + "): the previous object is silently replaced and never terminated"
 		}
 	}
-	// key: either a looked-up index or a phi of (constant, looked-up index)
-	keyOK := false
-	k := core.Canon(first.Key)
-	cands := []ssa.Value{k}
-	if phi, ok := k.(*ssa.Phi); ok {
-		cands = phi.Edges
-	}
-	nonConst := 0
-	matched := 0
-	for _, e := range cands {
-		if _, isConst := core.ConstInt(e); isConst {
-			continue
-		}
-		nonConst++
-		for _, lk := range lks {
-			if lk.CommaOk && core.SameValue(lk.Index, e) {
-				matched++
-				break
-			}
-		}
-	}
-	keyOK = nonConst == matched
-	guarded := core.Guarded(fn, first, core.AnyOf(ms...))
-	c.Check(keyOK && guarded, rule, "bus.serviceImpl.Add/store", first.Pos(), "the id is stored only after a lookup of it failed (or no first object exists)",
-		"Add can store an object under an identifier already in use (the previous object is silently replaced and never terminated)")
+	c.Check(bad == "", rule, "bus.serviceImpl.Add/store", stores[0].Pos(), "an id is stored only after a lookup of it failed (or no first object exists)", bad)
 }
 
 func ruleSubscribersTold(c *core.Ctx) {
